@@ -35,6 +35,20 @@ def obligations(tier):
                         replace=["match_str:stub_match", "skip_value:stub_value"], unwindset=["strchr.0:8"],
                         claim="json_find member loop on every buffer of %d..%d bytes with names and values abstracted (arbitrary extents and match flags): returns the value position (after ':' and white space) of the FIRST member whose name matched; end if the skeleton { \"..\" : v , ... is broken or nothing matches" % (lo, hi),
                         bounds="%d..%d bytes, <= 3 members" % (lo, hi), stubs=["match_str, skip_value -> contract stubs with pre-drawn answers"]))
+    # socket addresses (util/sock_util.c, util/sock.c); harness shared with C15
+    SST = ["inet_pton / inet_ntop -> logging contract stubs (the literal grammar is libc's)", "strdup -> exact-size model", "asprintf -> mini formatter (%s %d)", "strtoimax -> model", "warn -> empty"]
+    for nl in [0, 1, 16, 28, 110]:
+        obs.append(dict(name="sockaddr-serialize-roundtrip-namelen%d" % nl, harness="../C15/sockaddr.c", entry="h_roundtrip", defs=["NAMELEN=%d" % nl], vsrcs=["models/stub_warnp.c"], unwind=max(nl + 2, 8), timeout=to,
+                        claim="sock_addr_serialize -> sock_addr_deserialize and sock_addr_dup return an address with the same family, type, length and name bytes (namelen %d, contents arbitrary); sock_addr_cmp is 0 exactly for equal addresses" % nl,
+                        bounds="namelen %d (0, 1, sockaddr_in, sockaddr_in6, sockaddr_un)" % nl, stubs=["warn -> empty"]))
+    for lo, hi in [(5, 7), (8, 8), (9, 9)] + ([(10, 10)] if T else []):
+        obs.append(dict(name="sock-resolve-ipv6-len%d-%d" % (lo, hi), harness="../C15/sockaddr.c", entry="h_v6", defs=["MINL=%d" % lo, "MAXL=%d" % hi], vsrcs=["models/stub_warnp.c"], replace=["sock_resolve_host:stub_host"], unwind=max(hi + 4, 18), timeout=to, flags=["--object-bits", "10"],
+                        claim="sock_resolve on every well-formed '[...:...]:port' string of %d..%d characters: the text between the brackets goes to inet_pton(AF_INET6) once, result = sockaddr_in6 {AF_INET6, htons(port), flow 0, parsed address, scope 0}" % (lo, hi),
+                        bounds="length %d..%d" % (lo, hi), stubs=SST))
+    for fam, nt, pd in [(4, 7, 1), (4, 7, 5), (4, 15, 2), (6, 2, 3), (6, 9, 5), (1, 5, 0), (1, 20, 0)]:
+        obs.append(dict(name="sockaddr-prettyprint-resolves-back-%s-len%d-portdigits%d" % ({4: "ipv4", 6: "ipv6", 1: "unix"}[fam], nt, pd), harness="../C15/sockaddr.c", entry="h_pretty", defs=["FAM=%d" % fam, "NTLEN=%d" % nt, "PDIG=%d" % max(pd, 1)], vsrcs=["models/stub_warnp.c"], replace=["sock_resolve_host:stub_host"], unwind=(115 if fam == 1 else max(nt + 12, 40)), timeout=to, flags=["--object-bits", "10"],
+                        claim="sock_addr_prettyprint of an arbitrary %s address (port 1..65535) followed by sock_resolve gives back exactly one address equal to the original (inet_pton taken as the inverse of inet_ntop on its own output, literal of %d characters)" % ({4: "IPv4", 6: "IPv6", 1: "Unix-path"}[fam], nt),
+                        bounds="literal / path length %d, every port with %d decimal digits" % (nt, pd), stubs=SST))
     return obs
 
 TRUSTED = ["CBMC 6.11 C semantics and its string.h models (strchr, memcmp)", "cadical SAT solver", "refs/ref_codec.h (RFC 4648 / hex reference written from the RFC text)"]
